@@ -2367,6 +2367,7 @@ static int32_t tls13ParseNewSessionTicket(ssl_t *ssl, psParseBuf_t *pb)
         }
         Memset(ssl->sid, 0, sizeof(sslSessionId_t));
         ssl->sid->pool = ssl->hsPool;
+        ssl->tls13OwnSid = PS_TRUE; /* Freed in matrixSslDeleteSession. */
     }
 # ifdef USE_STATELESS_SESSION_TICKETS
     ssl->sid->sessionTicket = psMalloc(ssl->sid->pool, ticketLen);
